@@ -35,9 +35,21 @@ func (o unmarshalOptions) Options() proto.UnmarshalOptions {
 		AllowPartial:   true,
 		DiscardUnknown: o.DiscardUnknown(),
 		Resolver:       o.resolver,
+		RecursionLimit: o.recursionLimit(),
 
 		NoLazyDecoding: o.NoLazyDecoding(),
 	}
+}
+
+// recursionLimit returns the remaining depth as a proto.UnmarshalOptions
+// RecursionLimit, so that messages decoded through the proto package
+// (those without a MessageInfo) count against the same budget.
+// An exhausted budget must not be zero, which selects the default limit.
+func (o unmarshalOptions) recursionLimit() int {
+	if o.depth <= 0 {
+		return -1
+	}
+	return o.depth
 }
 
 func (o unmarshalOptions) DiscardUnknown() bool {
